@@ -176,6 +176,10 @@ def format_datetime(dttm):
 
     """
 
+    if not isinstance(dttm, dt.datetime):
+        # A plain date: midnight UTC, as parse_into_datetime() reads it.
+        dttm = dt.datetime.combine(dttm, dt.time(0, 0, tzinfo=pytz.utc))
+
     if dttm.tzinfo is None or dttm.tzinfo.utcoffset(dttm) is None:
         # dttm is timezone-naive; assume UTC
         zoned = pytz.utc.localize(dttm)
